@@ -362,6 +362,35 @@ theorem satIndex_rewrite (f : TransFns Rat) (drop : Rat → Bool) (inUse : Strin
   rw [h1] at h2
   grind
 
+/-! ### 8b. redox couples: solving the pivoted equation for the electron (`tidy_redox`: `trxn_swap("e-")`) -/
+
+theorem kCalc_smul (f : TransFns Rat) (r : Rat) (k : LogK Rat) (T P : Rat) :
+    letI := ratOps f
+    kCalc (LogK.smul r k) T P = r * kCalc k T P := by
+  simp only [kCalc, LogK.smul, NumOps.lit, NumOps.ofRat, NumOps.log10, NumOps.ln, id]
+  grind
+
+/-- solving an equation for a species with non-zero coefficient `c` scales its residual by `−1/c`: the electron equation
+of a redox couple holds iff the pivoted couple equation does -/
+theorem residual_solveFor (f : TransFns Rat) (la : String → Rat) (K : LogK Rat → Rat)
+    (hK : letI := ratOps f; ∀ (r : Rat) (k : LogK Rat), K (LogK.smul r k) = r * K k)
+    (n : String) (e : Eqn Rat) (hc : letI := ratOps f; coefOf n e.body ≠ 0) :
+    letI := ratOps f
+    (solveFor n e).head = n ∧
+    residual la K (solveFor n e) = (0 - 1 / coefOf n e.body) * residual la K e := by
+  refine ⟨rfl, ?_⟩
+  have h := Speciation.evalBody_removeName f la n e.body
+  simp only [residual, solveFor, hK, Speciation.evalBody_scaleBody, evalBody, NumOps.lit, NumOps.ofRat, id] at h ⊢
+  grind
+
+/-- the O(0)/O(-2) couple of phreeqc.dat: `2 H2O = O2 + 4 H+ + 4 e-` solved for `e-` -/
+example : letI := ratOps (⟨id, id, id, id, id, id, id, id, id, id⟩ : TransFns Rat)
+    let o2 : Eqn Rat := ⟨"O2", [("H2O", 2), ("H+", -4), ("e-", -4)], ⟨-8608 / 100, 0, 0, 0, 0, 0, 0, 0, 0⟩⟩
+    let e := solveFor "e-" o2
+    e.head = "e-" ∧ coefOf "O2" e.body = -1 / 4 ∧ coefOf "H+" e.body = -1 ∧ coefOf "H2O" e.body = 1 / 2
+      ∧ e.k.k0 = -2152 / 100 := by
+  decide +kernel
+
 /-! ### 9. non-vacuity: a small carbonate network, and the gate on a two-unknown state -/
 
 namespace Ex
